@@ -33,7 +33,7 @@ def _sparse():
 @register
 class BinPackH(Harness):
     ENV = "BinPack"
-    QUICK = ["BinPack@3x5x4x3x2x2"]
+    QUICK = ["BinPack@3x5x4x3x2x2", "BinPack@3x5x4x3x1x2"]     # 2nd: pairwise different container dimensions (3, 1, 2): an axis mix-up (y vs z) is invisible when width == height
     C01_EXTRA = ["BinPack@2x4x3x2x2x3"]     # container 2 x 2 x 3 (height > width), 2 items, 4 EMS slots: a coordinate normalised by the wrong dimension leaves [0, 1]
     THOROUGH = ["BinPack@3x4x4x3x2x2", "BinPack@2x5x4x3x3x2"]
     INVALID = "terminate"
